@@ -2,6 +2,7 @@
 from ..core import Family
 from .. import plevel
 from . import engine_common as ec
+PROPERTY_FILES = ["C02", "C01_Routes"]
 TRUSTED_BASE = ec.TB
 ASSUMPTIONS = ec.ASSUME + ["model validation (core/validation.rs) is not part of the committed model yet: this check covers search completeness and soundness of the no-solution verdict at the propagator level"]
 RULE = ("case = propagator-level model, entry `first` (= Model::solve's use of the engine); a solution must be returned iff the "
@@ -13,3 +14,12 @@ FAMILIES = [
     Family("solve_random", "solve", gen, nontrivial=lambda c, i: True, prop_judge=plevel.judge_solve),
     Family("solve_structured", "solve", lambda tier, rng: [c for c in ec.structured(tier, rng) if c.endswith("first")], nontrivial=lambda c, i: True, prop_judge=plevel.judge_solve),
 ]
+
+# Model-level posting routes (arithmetic/array/boolean/global/linear/reified API methods): structural and semantic
+# families of vlib/props/routes.py; their known classes are recorded under C01/C02/C10/C17 in known_findings.txt
+from . import routes as _routes
+FAMILIES += _routes.FAMILIES
+KNOWN_PIDS = _routes.KNOWN_PIDS
+SHARED_CLASSES = _routes.SHARED_CLASSES
+TRUSTED_BASE = TRUSTED_BASE + [t for t in _routes.TRUSTED_BASE if t not in TRUSTED_BASE]
+ASSUMPTIONS = ASSUMPTIONS + [a for a in _routes.ASSUMPTIONS if a not in ASSUMPTIONS]
